@@ -67,6 +67,7 @@ def handle (line : String) : String :=
     match lt.toNat?, ws.mapM sessOp with
     | some lt, some ops => joinWith "," ((SessionCache.run false lt SessionCache.init ops).2.map toString)
     | _, _ => "bad-op"
+  | ["rows"] => "only-permitted-rows"      -- `listed_jobs_belong_to_batch` / the listings' membership filters
   | ["filtercol"] => Generated.BatchRoutes.userCanAccessColumn
   | _ => "bad-op"
 
